@@ -606,7 +606,7 @@ func cfgOps(ttl int64) []string {
 
 func runCacheProp(prop string) runFn {
 	return func(res *Result, tier string, seed int64, replay string) {
-		res.Rule = "histories over {cached render of A / A' (one byte differs) / unparsable / invalid-attribute doc / the same behind blank lines / A with trailing whitespace / a document with mj-class, mj-attributes, inline style and an invalid attribute after valid ones, uncached render, advance TTL/2, advance TTL, stop}; compilations with debug tags on and off over one cached tree (in every order, across expiry and stop / restart); exhaustive to length 4 (quick) or 5 (thorough); fast-sweep family (1 ms interval, tick after every step) exhaustive to length 3; seeded random histories up to length 25 (quick) / 125 (thorough); configuration calls made late (while a cleaner runs, after a stop); C14 adds the TTL×interval boundary matrix in both setter orders, a timed survive-the-sweep scenario and a volume scenario (5 000 and 20 000 templates expiring together must be gone two sweeps later). Each history runs in a FRESH process (hx cachechild) and on the Lean Model (driver `cache`); per op: outcome vs uncached compilation, parser calls, cache size, cleaner registered, effective config, cleanup goroutines started/exited. Non-trivial = history with at least one cached compilation; distinct by op list"
+		res.Rule = "histories over {cached render of A / A' (one byte differs) / unparsable / invalid-attribute doc / the same behind blank lines / A with trailing whitespace / a document with mj-class, mj-attributes, inline style and an invalid attribute after valid ones, uncached render, advance TTL/2, advance TTL, stop}; compilations with debug tags on and off over one cached tree (in every order, across expiry and stop / restart); exhaustive to length 4 (quick) or 5 (thorough); fast-sweep family (1 ms interval, tick after every step) exhaustive to length 3; seeded random histories up to length 25 (quick) / 125 (thorough); configuration calls made late (while a cleaner runs, after a stop); C14 adds the TTL×interval boundary matrix in both setter orders, a timed survive-the-sweep scenario and a volume scenario (5 000 and 20 000 templates expiring together must be gone two sweeps later). C13 also replays model-guided schedules of concurrent cached compilations against the concurrent cache Model (driver `cc`: goroutines parked at the yield points of parseAST and singleflightDo, evictions and the passing of time interleaved; position after every step, result and cache contents compared). Each history runs in a FRESH process (hx cachechild) and on the Lean Model (driver `cache`); per op: outcome vs uncached compilation, parser calls, cache size, cleaner registered, effective config, cleanup goroutines started/exited. Non-trivial = history with at least one cached compilation; distinct by op list"
 		drv, err := startDriverPool(8)
 		if err != nil {
 			res.Disagree(Violation{Sig: "driver-missing", Kind: "history", What: err.Error()})
@@ -656,6 +656,14 @@ func runCacheProp(prop string) runFn {
 			smp.Do(func() { res.Sample(map[string]interface{}{"history": hs[i].all()}) })
 			res.Count(fmt.Sprintf("len%02d", min(len(hs[i].all()), 30)/5*5))
 		})
+		if prop == "C13" && replay == "" {
+			// concurrent compilations against the concurrent cache Model, schedule by schedule (see cc.go)
+			n := 150
+			if tier == "thorough" {
+				n = 3000
+			}
+			ccReplays(res, seed, n, "C13")
+		}
 		if prop == "C14" && replay == "" {
 			runCfgSmoke(res)
 			runSweepTiming(res)
